@@ -230,7 +230,13 @@ TraceConvertEnd ==
   /\ cmemo' = IF run = 1 /\ e.cres = "ok" /\ e.res = "ok"
               THEN Append(cmemo, [variants |-> e.variants, offs |-> ObsOffs, code |-> e.code_hash])
               ELSE IF run = 1 THEN Append(cmemo, <<>>) ELSE cmemo
-  /\ IF e.cres # "ok" THEN Consume({"C20:helper-failed-on-a-valid-definition"})
+  \* `injected` > 0: the driver made that add closure return an error (behaviour beyond the listed
+  \* properties, judged for information only: EXT tags are never verdicts)
+  /\ IF e.cres # "ok"
+     THEN Consume(IF e.injected > 0
+                  THEN If(e.cres # "err", "EXT:helper-did-not-report-the-failure-of-a-closure-as-an-error")
+                       \cup If(e.after > 0, "EXT:closure-called-after-a-closure-returned-an-error")
+                  ELSE {"C20:helper-failed-on-a-valid-definition"})
      ELSE IF e.res = "panic" THEN Consume({"C20:target-left-with-unclosed-changes"})
      ELSE LET closed == "strategy" \in DOMAIN last      \* the target saw at least one close
               m == ConvertModel(src.defs, src.variants, kind, last.strategy) IN
